@@ -188,6 +188,9 @@ def history_case(case):
         kw["batch_size"] = bs
     if family in M.SPARSE:
         kw["alpha"] = 0.05
+    twice = "twice" in history                       # constraints added in two calls (other factor for the cannot-link pairs)
+    if "verbose" in history:
+        kw["verbose"] = True
     model = M.make(family, **kw)
     klass = type(model)
     real = klass._compute_grads
@@ -199,12 +202,21 @@ def history_case(case):
     marks = []
     klass._compute_grads = cls_spy
     where = dict(family=family, factor=factor, batch_size=bs, gemini=gemini, history="+".join(history))
+    import contextlib
+    import io
     try:
-        model = add_mlcl_constraint(model, ML5, CL5, factor)
+        if twice:
+            model = add_mlcl_constraint(model, ML5, None, factor)
+            model = add_mlcl_constraint(model, None, CL5, 0.5 * factor)
+        else:
+            model = add_mlcl_constraint(model, ML5, CL5, factor)
         for ev in history:
             marks.append(ev)
+            if ev in ("twice", "verbose"):
+                continue
             if ev == "fit":
-                model.fit(X)
+                with contextlib.redirect_stdout(io.StringIO()):
+                    model.fit(X)
             elif ev == "query":
                 model.predict(X)
                 model.score(X)
@@ -218,7 +230,8 @@ def history_case(case):
     for idx, P, g_in, stage in seen:
         A = None if Afull is None else np.asarray(Afull)[np.ix_(idx, idx)]
         _, g0 = gem(P.copy(), A, return_grad=True)
-        T = ref.constraint_term(P, idx, ML5, CL5, factor)
+        T = ref.constraint_term(P, idx, ML5, CL5, factor) if not twice else \
+            ref.constraint_term(P, idx, ML5, [], factor) + ref.constraint_term(P, idx, [], CL5, 0.5 * factor)
         touched += bool(np.abs(T).max() > 0)
         if not np.allclose(g_in, np.asarray(g0, dtype=float) + T, rtol=1e-10, atol=1e-12):
             v.append(violation("constraint_gradient_wrong", {"during": f"call {stage} of the history ({history[stage - 1]})", "batch_samples": idx,
@@ -252,12 +265,12 @@ def explorers(tier, seed):
     for family in TRAIN_MODELS + ["SparseMLPModel"]:
         for gemini in ("mmd_ova", "mi"):
             for bs in ([None] if family == "CategoricalModel" else [2, None]):
-                hists = [("fit", "fit"), ("fit", "query", "fit"), ("fit", "fit", "fit")] + ([("path",), ("fit", "path"), ("path", "fit")] if family in M.SPARSE else [])
+                hists = [("fit", "fit"), ("fit", "query", "fit"), ("fit", "fit", "fit"), ("twice", "fit"), ("twice", "fit", "fit"), ("verbose", "fit"), ("verbose", "twice", "fit")] + ([("path",), ("fit", "path"), ("path", "fit")] if family in M.SPARSE else [])
                 for h in hists:
                     c4.append((family, 3.0, bs, gemini, h, seed))
     return [
         Explorer("training_histories", "props.c14", "history_case", c4, kind="choices", chunk=4, floor=30,
-                 rule="decorated models trained repeatedly: fit;fit, fit;predict+score;fit, fit;fit;fit and (sparse) path, fit;path, path;fit - the gradient entering "
+                 rule="decorated models trained repeatedly: fit;fit, fit;predict+score;fit, fit;fit;fit, constraints added in two calls with two factors, verbose mode, and (sparse) path, fit;path, path;fit - the gradient entering "
                       "back-propagation in EVERY call of EVERY training run is the GEMINI gradient plus the constraint term (class-level spy)"),
         Explorer("validation_all_pair_sets", "props.c14", "validation_block", c1, chunk=8, floor=1000,
                  rule="ALL subsets of the 6 pairs over 4 indices as must-link x ALL subsets as cannot-link, index sets "
